@@ -39,7 +39,7 @@ m = dict(
     version=1,
     setup_cmd="./check --setup",
     hooks=dict(guard="verif", enable="go build -tags verif (done by ./check in a scratch copy of /repo)",
-               baseline_off_cmd="cd /repo && go test -vet=off -count=1 -timeout 25m ./...",
+               baseline_off_cmd="cd /repo && GOFLAGS=-mod=mod GOPROXY=off GOSUMDB=off GOTOOLCHAIN=local go test -vet=off -count=1 -timeout 25m ./...",
                source_commits=hook_commits, add_only=True),
     engines=[dict(name=k, path="harness/cmd/" + k, serves_properties=v, kind_free_text="Go driver run as child processes by ./check; monitors + oracles in-process") for k, v in sorted(engines.items())],
     checks=checks,
